@@ -320,6 +320,25 @@ def x_guard(b, rec):
     return b
 
 
+BOOL_FIELDS = ('root_needs_trace',)
+
+
+def x_take(b, rec):
+    """X-take: mem::take(&mut self.F) on a bool field -> read, reset to Default (false), yield the old value."""
+    cnt = [0]
+
+    def sub(m):
+        f = m.group(1)
+        if f not in BOOL_FIELDS:
+            raise Unsupported('mem::take on a field that is not a known bool: ' + f)
+        v = 'taken_%d' % cnt[0]; cnt[0] += 1
+        return '{ let %s = self.%s; self.%s = false; %s }' % (v, f, f, v)
+    b, k = re.subn(r'(?:core::)?mem::take\(&mut self\.(\w+)\)', sub, b)
+    if k:
+        rec.rule('X-take')
+    return b
+
+
 def x_f64(b, rec):
     b, k = re.subn(r'\(?self\.metrics\.allocation_debt\(\) > 0\.0\)?', 'self.metrics.debt_gt_zero()', b)
     if k:
@@ -345,7 +364,7 @@ def x_dropguard(b, rec):
     m = re.search(r'let guard = DropGuard \{\s*context: self,\s*gc_ptr,\s*\};', b)
     if not m:
         raise Unsupported('DropGuard construction shape changed')
-    b = b[:m.start()] + b[m.end():]
+    b = b[:m.start()] + '/*@guard-created@*/' + b[m.end():]
     b = b.replace('guard.context', 'self')
     if not re.search(r'mem::forget\(guard\);', b):
         raise Unsupported('DropGuard is not forgotten on the normal path')
@@ -396,6 +415,7 @@ def rewrite_sig(sig, rec):
 
 def apply_common(b, rec):
     b = x_guard(b, rec)
+    b = x_take(b, rec)
     b = x_f64(b, rec)
     b = x_hdr(b, rec)
     b = x_cell(b, rec)
@@ -458,7 +478,7 @@ def extract_context(path, rec):
             hb = apply_common(dedent(hb, 8), rec)
             check_leftovers(key + '/' + hn, hb)
             hs.append((hn, arg, squeeze(hb)))
-        check_leftovers(key, body.replace('/*@guard-forgotten@*/', ''))
+        check_leftovers(key, body.replace('/*@guard-forgotten@*/', '').replace('/*@guard-created@*/', ''))
         out[key] = {'sig': rewrite_sig(sig, rec), 'body': squeeze(body), 'hoisted': hs, 'guard_drop': guard_drop}
         rec.cur['text'] = out[key]['body']
 
@@ -526,7 +546,13 @@ def extract_metrics(path, rec):
     for fn in METRICS_FNS:
         key = 'metrics.' + fn
         rec.begin(key, 'src/metrics.rs::impl Metrics::' + fn)
-        sig, body, _, _ = find_fn(impl, fn, 'Metrics::' + fn)
+        try:
+            sig, body, _, _ = find_fn(impl, fn, 'Metrics::' + fn)
+        except LostAnchor:
+            # a counter helper that no longer exists is simply absent from the generated file: if extracted code
+            # still calls it the run is undecided (compile error -> exit 2); otherwise the callers' contracts decide
+            rec.cur['absent'] = True
+            continue
         body = dedent(body, 4)
         if fn == 'finish_cycle':
             # X-f64: statements of the float part are replaced by ONE shim call; the counter resets are kept
